@@ -3,7 +3,7 @@
 
     // C01 — everything else (parser recursion, VM operand stack discipline, filters taking &State, formatting) is
     // outside the verifiers' reach: BOUNDED native stand-in, panics caught.
-//# ob name=no_panic_corpus_native role=native_bounded fn=Environment::{add_template,compile_expression}+Template::render kind=bounded bound="(a) every source of length <= 4 tokens over a 17-token alphabet of syntax fragments (about 9*10^4 sources) loaded and rendered; (b) 150 expressions applying size/count/index taking filters, functions, operators and loop methods to boundary arguments {0, +-1, 2^31, 2^62, 2^63-1, 2^63, 2^64-1, -2^63, huge floats, empty / huge strings}; (b1) every built-in filter and every built-in test (names taken from the engine's tables) applied to 20 boundary values with 0, 1 and 2 boundary arguments (> 10^5 expressions); (b4) every character U+0000..=U+03FF plus 10 others, alone and embedded, through 35 string formatting / slicing / re-encoding paths; (c) moderately deep nesting (depth 100) of every recursive syntax form; debug profile with overflow checks" stmt="loading and rendering either succeeds or returns an error value; it never panics, aborts on arithmetic overflow, indexes out of bounds, unwraps None or requests an allocation whose size the template chose"
+//# ob name=no_panic_corpus_native role=native_bounded fn=Environment::{add_template,compile_expression}+Template::render kind=bounded bound="(a) every source of length <= 4 tokens over a 17-token alphabet of syntax fragments (about 9*10^4 sources) loaded and rendered; (b) 150 expressions applying size/count/index taking filters, functions, operators and loop methods to boundary arguments {0, +-1, 2^31, 2^62, 2^63-1, 2^63, 2^64-1, -2^63, huge floats, empty / huge strings}; (b1) every built-in filter and every built-in test (names taken from the engine's tables) applied to 20 boundary values with 0, 1 and 2 boundary arguments (> 10^5 expressions); (b4) every character U+0000..=U+03FF plus 17 others (all Unicode whitespace), alone and embedded, through 39 string formatting / slicing / re-encoding paths; (c) moderately deep nesting (depth 100) of every recursive syntax form; debug profile with overflow checks" stmt="loading and rendering either succeeds or returns an error value; it never panics, aborts on arithmetic overflow, indexes out of bounds, unwraps None or requests an allocation whose size the template chose"
     fn no_panic_corpus_native() {
         use crate::value::Value;
         let guard = |what: &str, f: &mut dyn FnMut()| {
@@ -130,9 +130,13 @@
                          "{{ t|title }}", "{{ t|capitalize }}", "{{ t|upper }}{{ t|lower }}", "{{ t|trim }}{{ t|trim(s) }}", "{{ t|indent(2, true, true) }}", "{{ t|replace(s, 'xy') }}{{ t|replace('a', s) }}", "{{ t|split(s) }}{{ t|split }}",
                          "{{ t|lines }}", "{{ t[0] }}{{ t[1] }}{{ t[-1] }}{{ t[1:] }}{{ t[::-1] }}{{ t[::2] }}", "{{ t|list }}{{ t|reverse }}{{ t|first }}{{ t|last }}{{ t|length }}", "{{ t|escape }}{{ t|e|string }}", "{{ t|truncate(2) if false }}",
                          "{{ [t, s]|sort }}{{ [t, s]|unique|list }}{{ [t, s]|join(s) }}", "{{ t|int(default=0) }}{{ t|float(default=0) }}", "{{ t is startingwith(s) if false }}{{ s in t }}{{ t < s }}", "{% include s %}", "{% include [s, t] ignore missing %}",
-                         "{{ undefined_fn(s) }}", "{{ s.attr(t) }}", "{{ {}[s] }}{{ {'a': 1}[t] }}", "{{ namespace(v=s) }}", "{{ dict(k=t)|items|list }}", "{{ '%s|%r'|format(s, t) if false }}{{ '%s'|format(t) }}", "{{ s ~ t }}{{ s * 3 }}"];
+                         "{{ undefined_fn(s) }}", "{{ s.attr(t) }}", "{{ {}[s] }}{{ {'a': 1}[t] }}", "{{ namespace(v=s) }}", "{{ dict(k=t)|items|list }}", "{{ '%s|%r'|format(s, t) if false }}{{ '%s'|format(t) }}", "{{ s ~ t }}{{ s * 3 }}",
+                         // splitting with a limit, on whitespace and on the character itself; the other arguments of the string filters
+                         "{{ t|split(none, 1) }}{{ t|split(none, 2) }}{{ t|split(none, 5) }}{{ s|split(none, 1) }}{{ (s ~ s)|split(none, 1) }}{{ (t ~ s ~ 'c' ~ s)|split(none, 2) }}",
+                         "{{ t|split(s, 1) }}{{ t|split(s, 0) }}{{ t|replace(s, 'x', 1) }}{{ t|center(7) if false }}{{ t|wordcount if false }}", "{{ t|title }}{{ (s ~ 'ab' ~ s ~ 'cd')|title }}{{ (s ~ 'ab')|capitalize }}",
+                         "{{ t|striptags if false }}{{ t|trim(s ~ 'a') }}{{ t|lines|length }}{{ (t ~ '\n' ~ s)|indent(1, blank=true) }}"];
             let mut cps: Vec<u32> = (0..=0x3FFu32).collect();
-            cps.extend([0x2028, 0x2029, 0xFEFF, 0xD7FF, 0xE000, 0xFFFD, 0xFFFF, 0x10000, 0x1F600, 0x10FFFF]);
+            cps.extend([0x1680, 0x2000, 0x2003, 0x200A, 0x202F, 0x205F, 0x3000, 0x2028, 0x2029, 0xFEFF, 0xD7FF, 0xE000, 0xFFFD, 0xFFFF, 0x10000, 0x1F600, 0x10FFFF]);
             let mut k = 0u64;
             for cp in cps {
                 let Some(c) = char::from_u32(cp) else { continue };
